@@ -60,12 +60,23 @@ type Frame struct {
 	prev     *ssa.BasicBlock
 	caller   *Frame
 	skipPhis bool
+	panicking *goPanic // set while the frame's deferred calls run after a panic
+}
+
+// goPanic is a Go panic travelling up the interpreted call stack towards a deferred recover().
+type goPanic struct {
+	val  Value // the panic value (interface)
+	kind string
+	site Site
+	msg  string
 }
 
 // fnInfo numbers the SSA values of a function so that frames can use slices instead of maps.
 type fnInfo struct {
-	idx map[ssa.Value]int
-	n   int
+	idx           map[ssa.Value]int
+	n             int
+	defersRecover bool // the function defers a call to a function that calls recover()
+	hasDefer      bool
 }
 
 func (e *Engine) infoOf(fn *ssa.Function) *fnInfo {
@@ -92,8 +103,38 @@ func (e *Engine) infoOf(fn *ssa.Function) *fnInfo {
 			}
 		}
 	}
+	for _, b := range fn.Blocks {
+		for _, ins := range b.Instrs {
+			if d, ok := ins.(*ssa.Defer); ok {
+				fi.hasDefer = true
+				var callee *ssa.Function
+				switch f := d.Call.Value.(type) {
+				case *ssa.Function:
+					callee = f
+				case *ssa.MakeClosure:
+					callee, _ = f.Fn.(*ssa.Function)
+				}
+				if callee != nil && callsRecover(callee) {
+					fi.defersRecover = true
+				}
+			}
+		}
+	}
 	v, _ := e.fnInfos.LoadOrStore(fn, fi)
 	return v.(*fnInfo)
+}
+
+func callsRecover(fn *ssa.Function) bool {
+	for _, b := range fn.Blocks {
+		for _, ins := range b.Instrs {
+			if c, ok := ins.(ssa.CallInstruction); ok {
+				if bi, ok := c.Common().Value.(*ssa.Builtin); ok && bi.Name() == "recover" {
+					return true
+				}
+			}
+		}
+	}
+	return false
 }
 
 func (fr *Frame) set(v ssa.Value, x Value) { fr.env[fr.info.idx[v]] = x }
@@ -165,6 +206,12 @@ type Run struct {
 	clockLog   []*Term
 	randInts   []*Term
 	pairs      []*pairEntry
+	recoverFrames int // active frames that defer a recover()
+	secret     map[*Term]bool
+	secretList []*Term
+	shadow     map[*Term]*Term
+	shadowPC   map[int]bool
+	leakChecks int
 	onceDone   map[string]bool
 	curScript  *scripted
 	schedLog   []int
@@ -348,6 +395,22 @@ func (r *Run) mustNot(fail *Term, kind string, site Site, msg string) {
 		fail = And(r.guard, fail)
 	}
 	if fail.IsFalse() {
+		return
+	}
+	if r.recoverFrames > 0 && kind != "assert" && kind != "unwind" && kind != "alloc" && kind != "race" && kind != "deadlock" {
+		// a run-time panic below a function that defers recover(): it travels up as a Go panic; if nothing
+		// recovers it, it is reported where the path ends (see runPath)
+		if r.branch(fail) {
+			panic(&goPanic{val: &IfaceV{t: runtimeErrType, v: concStr("runtime error: " + msg)}, kind: kind, site: site, msg: msg})
+		}
+		return
+	}
+	if r.inst.OnlyAsserts && kind != "assert" {
+		// this instance is about the harness's assertions only: a run-time panic ends the path quietly
+		// (the panics themselves are another property's subject)
+		if r.branch(fail) {
+			endPath("panic", "%s at %s (not this instance's subject)", kind, site)
+		}
 		return
 	}
 	i := len(r.taken)
@@ -633,8 +696,64 @@ func (r *Run) callFn(caller *Frame, fn *ssa.Function, args []Value, site Site) V
 	for i, fv := range fn.FreeVars {
 		fr.env[fi.idx[fv]] = args[len(fn.Params)+i]
 	}
+	if fi.defersRecover || (r.recoverFrames > 0 && fi.hasDefer) {
+		return r.callFnRecovering(fr, fn, site)
+	}
+	return r.runBody(fr, fn, fn.Blocks[0])
+}
+
+// callFnRecovering runs a function that defers a recover(): a panic raised below it (explicit, or an
+// implicit run-time panic, which mustNot turns into a goPanic while recoverFrames > 0) runs the deferred
+// calls; if one of them recovers, execution continues at the function's Recover block (named results).
+func (r *Run) callFnRecovering(fr *Frame, fn *ssa.Function, site Site) Value {
+	r.recoverFrames++
+	depth := r.depth
 	var ret Value
-	b := fn.Blocks[0]
+	pan := func() (p *goPanic) {
+		defer func() {
+			if e := recover(); e != nil {
+				gp, ok := e.(*goPanic)
+				if !ok {
+					panic(e)
+				}
+				p = gp
+			}
+		}()
+		ret = r.runBody(fr, fn, fn.Blocks[0])
+		return nil
+	}()
+	r.recoverFrames--
+	if pan == nil {
+		return ret
+	}
+	r.depth = depth
+	fr.panicking = pan
+	r.runDefers(fr)
+	if fr.panicking != nil {
+		r.depth--
+		panic(pan) // not recovered here: keeps travelling
+	}
+	if fn.Recover == nil {
+		res := fn.Signature.Results()
+		if res.Len() == 0 {
+			r.depth--
+			return nil
+		}
+		tv := make(TupleV, res.Len())
+		for i := range tv {
+			tv[i] = zeroValue(res.At(i).Type())
+		}
+		r.depth--
+		if len(tv) == 1 {
+			return tv[0]
+		}
+		return tv
+	}
+	return r.runBody(fr, fn, fn.Recover)
+}
+
+func (r *Run) runBody(fr *Frame, fn *ssa.Function, b *ssa.BasicBlock) Value {
+	var ret Value
 	var visits map[*ssa.BasicBlock]int
 	isInit := fn.Name() == "init" && fn.Synthetic != ""
 	counted := 0
@@ -703,6 +822,9 @@ blocks:
 				break blocks
 			case *ssa.Panic:
 				v := r.get(fr, x.X)
+				if r.recoverFrames > 0 {
+					panic(&goPanic{val: v, kind: "panic", site: Site{fn: fn, ins: ins}, msg: "explicit panic: " + describe(v)})
+				}
 				r.mustNot(True, "panic", Site{fn: fn, ins: ins}, "explicit panic: "+describe(v))
 			case *ssa.RunDefers:
 				r.runDefers(fr)
